@@ -52,6 +52,18 @@ static echs_evstrm_t parse_tree(void)
 		echs_evstrm_t e = parse_tree();
 		echs_evstrm_t x = parse_tree();
 		return make_evfilt(e, x);
+	} else if (!strcmp(t, "MX") || !strcmp(t, "MC") || !strcmp(t, "VC")) {
+		/* the other constructors of a merged stream: MX = echs_evstrm_mux(a, b, ..., NULL) (takes the streams),
+		 * MC = echs_evstrm_mux_clon(...) and VC = echs_evstrm_vmux_clon(array) (work on clones, the originals are freed) */
+		size_t k = strtoul(tk[ptk++], NULL, 10);
+		echs_evstrm_t s[8] = {NULL};
+		echs_evstrm_t r;
+		for (size_t i = 0; i < k && i < 7; i++) s[i] = parse_tree();
+		if (t[0] == 'V') r = echs_evstrm_vmux_clon(s, k);
+		else if (t[1] == 'X') r = echs_evstrm_mux(s[0], s[1], s[2], s[3], s[4], s[5], s[6], NULL);
+		else r = echs_evstrm_mux_clon(s[0], s[1], s[2], s[3], s[4], s[5], s[6], NULL);
+		if (t[1] == 'C') for (size_t i = 0; i < k && i < 7; i++) if (s[i] && s[i] != r) free_echs_evstrm(s[i]);
+		return r;
 	} else if (!strcmp(t, "C")) {
 		/* the clone of a stream nobody has looked at yet, the original is freed */
 		echs_evstrm_t o = parse_tree();
